@@ -27,6 +27,10 @@ def configs(tier, seed):
   for proto in ('line', 'udp', 'pickle'):
     for s in range(n):
       cfgs.append(dict(name='%s/%d' % (proto, s), proto=proto, shard=s))
+  # PICKLE_RECEIVER_MAX_LENGTH as configured ("set this to a higher value if you want to send big metric batches"): only a
+  # frame above the configured maximum may close the connection
+  for ml in (3 * 2 ** 20, 2048, 2 ** 20 + 1):
+    cfgs.append(dict(name='pickle/limit%d' % ml, proto='pickle', shard=99, maxlen=ml))
   return cfgs
 
 
@@ -134,7 +138,7 @@ def run_config(cfg, res):
   resource.setrlimit(resource.RLIMIT_AS, (4 << 30, 4 << 30))
   from vlib import boot, proto
   from vlib.refs import codec
-  ns = boot.boot('carbon-cache', {})
+  ns = boot.boot('carbon-cache', {'PICKLE_RECEIVER_MAX_LENGTH': cfg['maxlen']} if cfg.get('maxlen') else {})
   import carbon.protocols as P
   rec = proto.install_recorder()
   r = gen.rng(cfg['seed'], 'C11', cfg['name'])
@@ -206,6 +210,47 @@ def run_config(cfg, res):
         pos = sorted(set(r.randrange(1, n) for _ in range(r.randint(1, 8))))
         yield proto.cut(stream, pos), 'random@%s' % pos
 
+  if cfg.get('maxlen'):
+    if MAXLEN != cfg['maxlen']:
+      res.inconc('PICKLE_RECEIVER_MAX_LENGTH not applied by the config path')
+      return
+    # the generated frames below assume the default maximum (some are ~200 kB): run them only where the maximum was raised
+    ncases = (40 if cfg['tier'] == 'quick' else 300) if MAXLEN >= 2 ** 20 else 0
+    # well-formed frames sized around the configured maximum, between small well-formed neighbours
+    for k in range(6 if cfg['tier'] == 'quick' else 30):
+      target = r.choice([MAXLEN - 1, MAXLEN, MAXLEN + 1, MAXLEN // 2, MAXLEN - 100, int(MAXLEN * 0.9), MAXLEN + 5000])
+      ents, size = [], 0
+      namelen = 20 if MAXLEN < 100000 else 200
+      i = 0
+      while True:
+        e = ('big%d.%s' % (i, 'x' * namelen), (1500000000 + i, float(i)))
+        ents.append(e)
+        i += 1
+        if i % 50 == 0 or MAXLEN < 100000:
+          size = len(pickle.dumps(ents, protocol=2))
+          if size >= target - (namelen + 40):
+            break
+      pk = pickle.dumps(ents, protocol=2)
+      if len(pk) < target:            # pad the last name to hit the size exactly
+        ents[-1] = (ents[-1][0] + 'y' * (target - len(pk)), ents[-1][1])
+        pk = pickle.dumps(ents, protocol=2)
+      before = ('first.one', (1, 1.0))
+      after = ('last.one', (2, 2.0))
+      stream = frame(pickle.dumps([before], protocol=2)) + frame(pk) + frame(pickle.dumps([after], protocol=2))
+      over = len(pk) > MAXLEN
+      items = [('good', (before[0], (1.0, 1.0)))]
+      if over:
+        items.append(('stop', None))
+      else:
+        items += [('good', (n, (float(t), float(v)))) for n, (t, v) in ents] + [('good', (after[0], (2.0, 2.0)))]
+      res.count('frames_over_configured_maximum' if over else 'frames_up_to_configured_maximum')
+      for segs, desc in (([stream], 'whole'), (proto.cut(stream, sorted(set(r.randrange(1, len(stream)) for _ in range(5)))), 'random5'),
+                         ([stream[j:j + 65536] for j in range(0, len(stream), 65536)], 'chunks64k')):
+        o = proto.tcp_session(P.MetricPickleReceiver, segs, rec)
+        res.count('segmentations_executed')
+        if not judge(o, items, stream[:200], 'frame of %d bytes, maximum %d, %s' % (len(pk), MAXLEN, desc), over):
+          break
+      res.case(('limit', MAXLEN, len(pk)), nontrivial=True)
   for case in range(ncases):
     idx = 0
     if cfg['proto'] in ('line', 'udp'):
